@@ -36,6 +36,10 @@ func runC12(p *eng.Prog, r *eng.Report, tier string) {
 	})
 	c.r.Floor("C12.3", "narrowing conversions of parsed numbers in the stream packages", nTr, 2)
 	c12Send(c)
+	// C12.11 a stream error with an application condition (or any unknown
+	// child) is still decoded as the stream error: the hand-written token loop
+	// of stream.Error consumes every child it meets
+	c.r.Floor("C12.11", "child start-element edges in the token loops of package stream", decoderLoopConsumes(c, "C12.11", func(f *eng.Fn) bool { return strings.HasPrefix(f.Short, "stream.") }), 1)
 	// a stream error sent in place of a header is what the negotiation returns:
 	// the stream-level filter (C08.2) returns it as the error in every mode
 	c08ReaderAs(c, "C12.2")
